@@ -124,4 +124,28 @@ example : TrapTraj (-1) [1 / 10] 1 (19 / 21) ∧ (∀ h ∈ [(1 / 10 : ℝ)], 0 
   · intro h hh; simp at hh; subst hh; norm_num
   · norm_num
 
+/-! ## the finding `stale-f-after-antiwindup-clamp`, as a theorem about the regenerated rule
+
+`System.fg_update` evaluates the right-hand sides BEFORE `AntiWindup.check_eq` clamps a pegged state.  Take a state `z`
+with `ż = x − z` fed by a state `x` that the limiter holds at `L`, and let `xu` be the value the previous Newton
+increment left in `x` (the limiter overwrites it with `L` only after `f` has been evaluated).  The step is accepted
+when the regenerated trapezoidal residual vanishes for the right-hand side the integrator holds, `xu − z₁`.  Evaluated at
+the ACCEPTED state (`x = L`), the same residual is then exactly `h/2 · (xu − L)`: the rule is violated for `z`, which no
+limiter holds, by the amount the pegged state was off its limit inside the iteration. -/
+theorem stale_f_after_clamp (h z0 z1 fz0 xu L : ℝ)
+    (hacc : trapezoid_q z1 (xu - z1) 1 h z0 fz0 = 0) :
+    trapezoid_q z1 (L - z1) 1 h z0 fz0 = h / 2 * (xu - L) := by
+  unfold trapezoid_q at hacc ⊢
+  linear_combination hacc
+
+/-- a concrete instance (numbers of the recorded run: `L = 5.2`, the iterate `xu ≈ 9.97`, `h = 0.0317`): the accepted
+step of the code has residual `0.0756` where the tolerance is `1e-4` -/
+example : ∃ z1 : ℝ, trapezoid_q z1 (9.97 - z1) 1 0.0317 3.14 2.06 = 0 ∧
+    trapezoid_q z1 (5.2 - z1) 1 0.0317 3.14 2.06 = 0.0317 / 2 * (9.97 - 5.2) := by
+  refine ⟨(3.14 + 0.0317 / 2 * (9.97 + 2.06)) / (1 + 0.0317 / 2), ?_, ?_⟩
+  · unfold trapezoid_q; field_simp; ring
+  · have := stale_f_after_clamp 0.0317 3.14 ((3.14 + 0.0317 / 2 * (9.97 + 2.06)) / (1 + 0.0317 / 2)) 2.06 9.97 5.2
+      (by unfold trapezoid_q; field_simp; ring)
+    exact this
+
 end Andes.C04Order
